@@ -19,6 +19,9 @@ import (
 type C01Case struct {
 	Doc    gen.Doc `json:"doc"`
 	Inject string  `json:"inject,omitempty"` // invalid / unsupported CSS construct appended to the first style sheet (metamorphic pair)
+	// Ordinary: the document comes from the grammar of ordinary documents (gen.GenCalmDoc): a hang there is
+	// identified apart from the listed hangs of the full grammar
+	Ordinary bool `json:"ordinary,omitempty"`
 }
 
 var c01Injections = []string{
@@ -30,12 +33,23 @@ var c01Injections = []string{
 var c01UniversalDisplay = regexp.MustCompile(`(?:\*|head|style)\s*\{[^}]*display\s*:`)
 
 // a marker image that the offline fetcher cannot load (anything but a data: URI)
-var c01BrokenMarkerImage = regexp.MustCompile(`list-style-image:url\((?:x|missing)\.png\)`)
+var c01BrokenMarkerImage = regexp.MustCompile(`list-style-image:(url\((?:x|missing)\.png\))`)
+
+// elements whose content is text: markup (and style attributes) inside them is displayed, not applied
+var c01RawText = regexp.MustCompile(`(?i)<(?:textarea|xmp|plaintext|noscript|noframes|noembed|iframe|script)\b`)
+
+// The variant keeps the text of the url where it was (as the value of a custom property nobody reads):
+// when the declaration sits inside the remnants of a bad url, a comment or a string, the characters that
+// end that construct are still there and the rest of the sheet is read as before.
+const c01NoMarkerImage = "--verif-unused:$1;list-style-image:none"
 
 func c01Gen(t *rapid.T, tier Tier) interface{} {
 	depth := 4
 	if tier == Thorough {
 		depth = 5
+	}
+	if rapid.IntRange(0, 4).Draw(t, "ordinary") == 0 {
+		return &C01Case{Doc: gen.GenCalmDoc(t), Ordinary: true}
 	}
 	c := &C01Case{Doc: gen.GenDoc(t, depth, rapid.IntRange(0, 9).Draw(t, "rtl") == 0)}
 	if rapid.IntRange(0, 3).Draw(t, "meta") == 0 {
@@ -131,6 +145,23 @@ func c01InjectInto(html, inj string) (string, bool) {
 	return html, false
 }
 
+// headDisplayed: some element of the head (style, title, ...) has a box in the laid-out pages
+func headDisplayed(r *wr.Rendered) bool {
+	found := false
+	for _, p := range r.Pages {
+		wr.WalkBoxes(p, func(b bo.Box) bool {
+			if el := b.Box().Element; el != nil {
+				switch el.Data {
+				case "style", "head", "title", "meta", "base", "link", "script":
+					found = true
+				}
+			}
+			return !found
+		})
+	}
+	return found
+}
+
 func c01Check(ci interface{}) Verdict {
 	c := ci.(*C01Case)
 	opts := c01Opts(c.Doc)
@@ -141,14 +172,21 @@ func c01Check(ci interface{}) Verdict {
 		return Verdict{Excluded: "rejected-by-NewHTML", Labels: []string{"rejected"}}
 	}
 	labels, nElems := c01Labels(r, c.Doc)
+	if c.Ordinary {
+		labels = append(labels, "ordinary-document")
+	}
 	if c.Inject == "" {
 		// an image that cannot be loaded is skipped: a list whose marker image is missing renders as if it
 		// declared none (the markers of list-style-type are drawn)
-		if c01BrokenMarkerImage.MatchString(c.Doc.HTML) {
-			html3 := c01BrokenMarkerImage.ReplaceAllString(c.Doc.HTML, "list-style-image:none")
+		if c01BrokenMarkerImage.MatchString(c.Doc.HTML) && !c01RawText.MatchString(c.Doc.HTML) {
+			html3 := c01BrokenMarkerImage.ReplaceAllString(c.Doc.HTML, c01NoMarkerImage)
 			r3, err := wr.Render(html3, opts)
 			if err != nil {
 				return Verdict{Excluded: "variant-rejected", Labels: labels}
+			}
+			if headDisplayed(r) || headDisplayed(r3) || c01UniversalDisplay.MatchString(c.Doc.HTML) {
+				// the style sheet is laid out as text: the variant is another document
+				return Verdict{Excluded: "source-displayed", Labels: labels}
 			}
 			labels = append(labels, "broken-marker-image")
 			// (empty text runs are not text)
@@ -171,21 +209,6 @@ func c01Check(ci interface{}) Verdict {
 	}
 	// the relation needs the added <style> element to generate no box: not the case when the author
 	// rules display head content (e.g. *{display:block})
-	headDisplayed := func(r *wr.Rendered) bool {
-		found := false
-		for _, p := range r.Pages {
-			wr.WalkBoxes(p, func(b bo.Box) bool {
-				if el := b.Box().Element; el != nil {
-					switch el.Data {
-					case "style", "head", "title", "meta", "base", "link", "script":
-						found = true
-					}
-				}
-				return !found
-			})
-		}
-		return found
-	}
 	if headDisplayed(r) || c01UniversalDisplay.MatchString(c.Doc.HTML) {
 		// (a rule such as *{display:table-header-group} gives the added style element a box that takes part in
 		// the table fix-ups even when nothing of it is left in the laid-out pages)
@@ -240,8 +263,14 @@ func init() {
 		Check:            c01Check,
 		CrashIsViolation: true,
 		CaseTimeout:      12 * time.Second,
-		QuickN:           12000,
-		ThoroughN:        300000,
+		HangTag: func(ci interface{}) string {
+			if c, ok := ci.(*C01Case); ok && c.Ordinary {
+				return ":ordinary-document"
+			}
+			return ""
+		},
+		QuickN:    12000,
+		ThoroughN: 300000,
 		Rule: "Documents from a weighted grammar: 58 tags (table parts, lists, form controls, img with data/missing sources, inline <svg> from the SVG generator, font/center), up to 25 elements, depth <= 4 (5 in thorough), style attributes and <style> rules drawn from a curated pool of ~330 declarations covering every layout mode (display x float x position x sizes incl. 0/negative/percent x breaks x columns x flex/grid x table x overflow/opacity/transform x GCPM string-set/running/footnote/bookmark x content/counters x custom properties incl. cycles), from the C08 value grammar and from property x generated-token pairs; " +
 			"23 @page variants incl. degenerate geometry and margin boxes, @media/@import/@font-face/@counter-style, nested rules; text pool with long words, CJK, RTL/bidi (one document in ten), soft hyphens, tabs/newlines; attributes id/href/colspan/rowspan/span/start/value/size/src/lang/dir/align; HTML prologues (comment/doctype/text before <html>, missing <html>/<body>); presentational hints on/off, optional user sheet, both text engines, zoom in {0.1, 1, 3}. " +
 			"Oracle 1: NewHTML -> Render -> Write(recording backend) returns: a panic, process death (stack exhaustion, fatal error) or 12 s of silence is a violation identified by its site. Oracle 2 (one case in four): the same document with one invalid or unsupported CSS construct appended to its first style sheet (unknown property, ill-typed value, unknown at-rule, unsupported pseudo-element/class, bad @font-face/@counter-style/@page, stray '}', unterminated rule) must keep the page count and the multiset of drawn text, and log at least one more warning. " +
